@@ -12,6 +12,32 @@ package c06
 // The reference model is a perfect map "key -> newest location ever stored"
 // that is only ever reset, for at most one key per reported discard, to
 // whatever that key visibly fell back to.
+//
+// Clauses (numbers as in verif.json / the final report). Before and after
+// every operation Get is evaluated for ALL keys; metric deltas are taken
+// around the Put call only.
+//
+//	(1) lookup soundness: Get(K) is NOT_FOUND or a (block, offset, size)
+//	    that was passed to Put for exactly K and lies in a live block.
+//	(2) Put(K,L): afterwards Get(K) = max(previous Get(K), L) in age order
+//	    (block, then offset), unless a discard was reported for this call.
+//	(3) Put(K,L): #(other keys whose result changed) + (1 if (2) deviates)
+//	    <= discards reported for this call; a changed other key had an
+//	    entry before, falls back to an OLDER location stored for it or to
+//	    nothing, and its lost entry is not newer than L.
+//	(4) release of the oldest block: results that pointed into it become
+//	    NOT_FOUND, all other results are unchanged; allocation of a block
+//	    and lookups change nothing.
+//	(5) at every point Get(K) == newest candidate of the reference model
+//	    if that lies in a live block, else NOT_FOUND (candidates of K: every
+//	    location stored for K since the last reported discard that visibly
+//	    changed K's result, plus what K fell back to at that discard).
+//	(6) mechanism, observed through the decorator: lookups write nothing,
+//	    read <= maximumGetAttempts slots and stop at the first invalid
+//	    record; Put reads/writes <= maximumPutAttempts slots; a valid record
+//	    is only ever overwritten by a strictly newer one (oldest-first
+//	    displacement).
+//	(7) table audit: see (*harness).audit.
 
 import (
 	"fmt"
@@ -197,9 +223,6 @@ func (a putMetrics) sub(b putMetrics) putMetrics {
 }
 
 func (a putMetrics) discards() uint64 { return a.tooManyAttempts + a.tooManyIterations }
-func (a putMetrics) outcomes() uint64 {
-	return a.inserted + a.updated + a.ignoredOlder + a.tooManyAttempts + a.tooManyIterations
-}
 
 // existingCollector returns the collector that is registered at the default
 // registry under the given family name. It learns help text and label names
@@ -511,7 +534,7 @@ func (h *harness) fail(format string, args ...any) {
 		}
 		sb.WriteString(o.String())
 	}
-	h.f.Fatalf("C06 %s\n  config: %s keys=%d live=[%d,%d)\n  history: %s", fmt.Sprintf(format, args...),
+	h.f.Fatalf("VERIF-FAIL C06 %s\n  config: %s keys=%d live=[%d,%d)\n  history: %s", fmt.Sprintf(format, args...),
 		h.cfg, len(h.keys), h.blocks.released, h.blocks.released+h.blocks.live(), sb.String())
 }
 
